@@ -223,7 +223,7 @@ func runC13(w *mc.Worker) {
 	}
 	// huge numbers enter through variables (a literal beyond int64 is C14's subject)
 	type hv struct{ typ, raw string }
-	huge := []hv{{"number", hs}, {"number", "-" + hs}, {"monetary", "USD " + hs}, {"monetary", "USD -" + hs}, {"portion", hs + "/" + new(big.Int).Mul(H, big.NewInt(3)).String()}}
+	huge := []hv{{"number", "9223372036854775807"}, {"number", "9223372036854775808"}, {"number", "18446744073709551615"}, {"number", "18446744073709551616"}, {"number", "-9223372036854775808"}, {"number", "-9223372036854775809"}, {"monetary", "USD 9223372036854775808"}, {"monetary", "USD 18446744073709551616"}, {"number", hs}, {"number", "-" + hs}, {"monetary", "USD " + hs}, {"monetary", "USD -" + hs}, {"portion", hs + "/" + new(big.Int).Mul(H, big.NewInt(3)).String()}}
 	w.Stage("roundtrip", fmt.Sprintf("%d literal values + %d huge values of the six types: set_account_meta -> store metadata -> meta() variable of the same type -> set_tx_meta", len(vals), len(huge)), func() {
 		w.Outer("roundtrip/value", 0, func(o *mc.Explorer) {
 			i := o.Choose(len(vals) + len(huge))
